@@ -48,6 +48,7 @@ class DispatchMonitor:
         self.types_seen = {}       # (interp name, cls name, arg types) -> chosen fn  (for C16)
         self.installed = []
         self.max_firings = 4000
+        self.on_args = None       # optional callback(args) invoked before each rule runs (used by the mutation monitor)
 
     # ------------------------------------------------------------------
     def install(self):
@@ -77,6 +78,8 @@ class DispatchMonitor:
                 return fn
 
             def run(*a):
+                if mon.on_args is not None:
+                    mon.on_args(a)
                 idx = len(mon.firings)
                 parent = mon.stack[-1] if mon.stack else None
                 mon.stack.append(idx)
